@@ -20,7 +20,7 @@ def append_inv(v, old, le_):
     k = v.loop0_k
     n = length(N)
     return [
-        ("n", conj(eq(n, nl + k), le(k, length(v.X_unlabeled)), eq(v.current_n_nodes, nl), ge(nl, 1))),
+        ("n", conj(eq(n, nl + k), le(k, length(v.X_unlabeled)), ge(nl, 1))),
         ("cfg", eq(m.pre_computed_distance, old.self.pre_computed_distance)),
         ("labelled", forall(0, nl, lambda x: conj(eq(N[x].label, v.Y_train[x]), ge(N[x].label, 0), ge(N[x].idx, 0),
                                                   eq(N[x].features, v.X_train[x]), eq(N[x].predicted_label, 0),
